@@ -123,7 +123,7 @@ func (p *havocProv) get(u *Unit, key string) string {
 	if t, ok := p.cache[key]; ok {
 		return t
 	}
-	if p.finalized && !p.all && !p.modified[key] {
+	if p.finalized && (!p.all || threadLocalKey(key)) && !p.modified[key] {
 		t := p.prev.get(u, key)
 		p.cache[key] = t
 		return t
@@ -195,10 +195,10 @@ func (p *havocProv) finalize(u *Unit, modified map[string]bool, all bool) {
 	p.modified = modified
 	p.all = all
 	p.finalized = true
-	if all {
-		return
-	}
 	for _, k := range sortedKeys(p.cache) {
+		if all && !threadLocalKey(k) {
+			continue
+		}
 		if !modified[k] {
 			u.assert("(= " + p.cache[k] + " " + p.prev.get(u, k) + ")")
 		} else {
@@ -293,4 +293,10 @@ func (u *Unit) entryHeldAssume(key, n string) {
 		cond += " (not (= r " + r + "))"
 	}
 	u.assert(fmt.Sprintf("(forall ((r Int)) (! (=> (and %s) (= (select %s r) 0)) :pattern ((select %s r))))", cond, n, n))
+}
+
+// threadLocalKey: ghost lock state, local cells and iteration ghosts cannot be changed by code
+// the function calls without a contract (see havocAll)
+func threadLocalKey(k string) bool {
+	return strings.HasPrefix(k, "Held.") || strings.HasPrefix(k, "Blk.") || strings.HasPrefix(k, "cell.") || strings.HasPrefix(k, "iter.")
 }
